@@ -163,6 +163,15 @@ class C12(FprCheck):
                 return {"key": "truncation-differs", "what": "level %d of a run to %d differs from a run limited to %d" % (k, L, k), "long": a, "limited": b}
             if a["level"] != k:
                 return {"key": "label-wrong", "what": "fingerprint requested at level %d is labelled %r" % (k, a["level"])}
+            # the level given as a NumPy integer (an element of np.arange or of an int array) is the same request
+            import numpy as np
+            kn = (np.int64, np.int32, np.uint8, np.int16)[k % 4](k)
+            try:
+                an = dump_fp(fp.get_fingerprint_at_level(kn))
+            except Exception as e:  # noqa: BLE001
+                return {"key": "truncation-raises:numpy-int-level:" + type(e).__name__, "what": "get_fingerprint_at_level(%s(%d)) raised %r" % (type(kn).__name__, k, e)}
+            if an != b:
+                return {"key": "truncation-differs:numpy-int-level", "what": "level %s(%d) of a run to %d differs from a run limited to %d" % (type(kn).__name__, k, L, k), "long": an, "limited": b}
         # the same through the per-level dictionary of the entry point (all iterations): the list under key k holds
         # fingerprints labelled k that equal a run limited to k, also for k beyond the level at which the conformer converged
         from e3fp.fingerprint.generate import fprints_dict_from_mol
